@@ -103,6 +103,19 @@ def gen_cases(ctx):
                         nbytes *= d
                     c[1], c[3] = dt, bytes(rng.randrange(256) for _ in range(nbytes)).hex()
         cases.append({'kind': kind, 'files': files, 'fields': fields, 'isatty': False, 'via': 'call'})
+    # many files and every value of the (documented, accepted) nthread option: the files still come out in argument order
+    for nfiles, nthread in ((5, None), (6, None), (9, None), (3, 2), (4, 3), (5, 1), (7, 2), (3, 8)):
+        files = []
+        for i in range(nfiles):
+            rows = rng.choice([1, 2, 3])
+            cols = [['pos', '<f4', [rows, 3], bytes(rng.randrange(256) for _ in range(rows * 12)).hex()],
+                    ['pid', '<i8', [rows], bytes(rng.randrange(256) for _ in range(rows * 8)).hex()]]
+            files.append({'compression': 'blsc' if rng.random() < 0.3 else None, 'cols': cols})
+        case = {'kind': 'valid', 'files': files, 'fields': rng.choice([['pos', 'pid'], ['pid'], ['pid', 'pos']]), 'isatty': False,
+                'via': 'call'}
+        if nthread is not None:
+            case['nthread'] = nthread
+        cases.append(case)
     # fixed corner cases
     one = {'compression': None, 'cols': [['pos', '<f4', [2, 3], bytes(range(24)).hex()], ['pid', '<i8', [2], bytes(range(16)).hex()]]}
     cases.append({'kind': 'tty', 'files': [one], 'fields': ['pos'], 'isatty': True, 'via': 'call'})
@@ -227,7 +240,8 @@ def impl_cases(payload):
             t.start()
             cls, detail = 'ok', ''
             try:
-                pipe_asdf.unpack_to_pipe(paths, case['fields'], pipe=pipe, verbose=False)
+                pipe_asdf.unpack_to_pipe(paths, case['fields'], pipe=pipe, verbose=False,
+                                         **({'nthread': case['nthread']} if case.get('nthread') else {}))
             except Exception as e:  # noqa: BLE001
                 cls, detail = classify(e), repr(e)[:200]
             closed = pipe.closed
